@@ -549,5 +549,10 @@ func ModelCheck(c *hx.Ctx, prop string) {
 
 func Run(c *hx.Ctx) {
 	ModelCheck(c, "C03")
+	if len(c.Args) > 0 && c.Args[0] == "upfonly" { // development aid
+		RunUpf(c, "C03")
+		return
+	}
 	RunMany(c, "C03", c.N(700, 2500), 8, false)
+	RunUpf(c, "C03")
 }
